@@ -57,6 +57,10 @@ pub struct SpawnCase {
     /// the caller's own descriptors 0/1/2 are closed while spawn runs (daemon-style caller)
     #[serde(default)]
     pub closed: [bool; 3],
+    /// how the exit status is collected: 0 = wait, try_wait; 1 = poll try_wait until it reports
+    /// the exit, then wait, then try_wait; 2 = one immediate try_wait, then wait twice
+    #[serde(default)]
+    pub wait_mode: u8,
 }
 
 fn helper_path() -> std::path::PathBuf {
@@ -410,9 +414,34 @@ fn run_case(c: &SpawnCase, root: &std::path::Path, rep: &mut CaseReport) -> Resu
                     ensure!(errb == b"ERR", "spawn|stderr pipe not connected to the child", "read {:?} from the child's stderr pipe, expected \"ERR\"", escape(&errb));
                 }
                 let pid = child.get_pid();
-                let status = no_panic("Child::wait", || child.wait())?.map_err(|e| Failure::new("Child::wait|error", format!("{e}")))?;
                 let code = i32::from(c.exit_code);
+                // every way of collecting the status reports the same, correct status, however often it is asked
+                let mut polled: Option<i32> = None;
+                if c.wait_mode == 1 {
+                    let t0 = std::time::Instant::now();
+                    while polled.is_none() && t0.elapsed() < std::time::Duration::from_secs(10) {
+                        polled = no_panic("Child::try_wait", || child.try_wait())?.map_err(|e| Failure::new("Child::try_wait|error while the child runs", format!("{e}")))?;
+                        if polled.is_none() {
+                            std::thread::sleep(std::time::Duration::from_micros(200));
+                        }
+                    }
+                    rep.class_if(polled.is_some(), "status-collected-by-try_wait-then-wait");
+                } else if c.wait_mode == 2 {
+                    polled = no_panic("Child::try_wait", || child.try_wait())?.map_err(|e| Failure::new("Child::try_wait|error while the child runs", format!("{e}")))?;
+                    rep.class("try_wait-before-wait");
+                }
+                if let Some(p) = polled {
+                    ensure!(p == code << 8 || p == code, "Child::try_wait|wrong exit status", "try_wait() returned Some({p}), the child exited with code {code}");
+                }
+                let status = no_panic("Child::wait", || child.wait())?.map_err(|e| Failure::new(if polled.is_some() { "Child::wait|error after try_wait reported the exit" } else { "Child::wait|error" }, format!("{e} (try_wait before: {polled:?})")))?;
                 ensure!(status == code << 8 || status == code, "Child::wait|wrong exit status", "wait() returned {status}, the child exited with code {code}");
+                if let Some(p) = polled {
+                    ensure!(p == status, "Child::wait|differs from try_wait", "try_wait reported {p}, wait afterwards {status}");
+                }
+                if c.wait_mode == 2 {
+                    let status2 = no_panic("Child::wait", || child.wait())?.map_err(|e| Failure::new("Child::wait|error on second wait", format!("{e}")))?;
+                    ensure!(status2 == status, "Child::wait|second wait differs", "first wait {status}, second wait {status2}");
+                }
                 let again = no_panic("Child::try_wait", || child.try_wait())?.map_err(|e| Failure::new("Child::try_wait|error after wait", format!("{e}")))?;
                 ensure!(again == Some(status), "Child::try_wait|differs from wait", "try_wait after wait returned {again:?}, wait returned {status}");
                 // the dump
@@ -655,12 +684,12 @@ pub fn case_strategy() -> impl Strategy<Value = SpawnCase> {
         prop::collection::vec(prop_oneof![9 => Just(0u8), 1 => prop::sample::select(vec![2u8, 13, 5, 1])], 0..3),
         any::<u8>(),
         fault_strategy(),
-        prop_oneof![5 => Just([false; 3]), 1 => [any::<bool>(), any::<bool>(), any::<bool>()]],
+        (prop_oneof![5 => Just([false; 3]), 1 => [any::<bool>(), any::<bool>(), any::<bool>()]], prop_oneof![2 => Just(0u8), 2 => Just(1u8), 1 => Just(2u8)]),
     )
-        .prop_map(|(prog, args, env, cwd, pgroup, ids, stdio, closures, exit_code, fault, closed)| {
+        .prop_map(|(prog, args, env, cwd, pgroup, ids, stdio, closures, exit_code, fault, (closed, wait_mode))| {
             // the closed-descriptor knob is combined only with fault-free runs of the helper
             let closed = if fault == Fault::None && prog == 0 { closed } else { [false; 3] };
-            SpawnCase { prog, args, env, cwd, pgroup, ids, stdio, closures, exit_code, fault, closed }
+            SpawnCase { prog, args, env, cwd, pgroup, ids, stdio, closures, exit_code, fault, closed, wait_mode }
         })
 }
 
